@@ -30,8 +30,11 @@ class Comparable(object):
 
         # convenience
         obj = self.obj
-        if isinstance(other, Comparable):
-            other = other.obj
+        # N.B., an unwrapped list or tuple needs wrapping too, so that it is
+        # compared element-wise under the same rules
+        if not isinstance(other, Comparable):
+            other = Comparable(other)
+        other = other.obj
 
         # None < everything else
         if other is None:
@@ -62,9 +65,9 @@ class Comparable(object):
             return _typestr(obj) < _typestr(other)
 
     def __eq__(self, other):
-        if isinstance(other, Comparable):
-            return self.obj == other.obj
-        return self.obj == other
+        if not isinstance(other, Comparable):
+            other = Comparable(other)
+        return self.obj == other.obj
 
     def __le__(self, other):
         return self < other or self == other
